@@ -19,9 +19,10 @@ import (
 func init() { props["C18"] = runC18 }
 
 type c18Ack struct {
-	worker int
-	bug    entity.Id
-	op     entity.Id
+	worker  int
+	bug     entity.Id
+	op      entity.Id
+	pending bool // appended with success, not committed by its own worker
 }
 
 func runC18(c *runCtx) {
@@ -111,7 +112,7 @@ func c18Run(c *runCtx, r *rng, ci, workers, procs, cacheSize, steps int) {
 					if err == nil {
 						mine = append(mine, b.Id())
 						mu.Lock()
-						acks = append(acks, c18Ack{w, b.Id(), op.Id()})
+						acks = append(acks, c18Ack{w, b.Id(), op.Id(), false})
 						mu.Unlock()
 					} else {
 						mu.Lock()
@@ -165,10 +166,18 @@ func c18Run(c *runCtx, r *rng, ci, workers, procs, cacheSize, steps int) {
 					if eerr != nil {
 						continue // not acknowledged
 					}
+					// one edit in three stays staged: somebody's later commit, or the flush after the
+					// workers are done, stores it
+					if rr.chance(1, 3) {
+						mu.Lock()
+						acks = append(acks, c18Ack{w, id, opId, true})
+						mu.Unlock()
+						continue
+					}
 					set("Commit " + id.Human())
 					if err := b.CommitAsNeeded(); err == nil && opId != "" {
 						mu.Lock()
-						acks = append(acks, c18Ack{w, id, opId})
+						acks = append(acks, c18Ack{w, id, opId, false})
 						mu.Unlock()
 					}
 				case x < 9:
@@ -213,7 +222,51 @@ func c18Run(c *runCtx, r *rng, ci, workers, procs, cacheSize, steps int) {
 		mu.Unlock()
 		c.violation(-1, key("deadlock"), fmt.Sprintf("calls did not return within 25 s (%s): %s", tag, strings.Join(where, "; ")), map[string]any{"conf": tag})
 		// the stuck goroutines keep the cache; read what is stored through a second handle
+		mu.Lock()
+		var kept []c18Ack
+		for _, a := range acks {
+			if !a.pending {
+				kept = append(kept, a)
+			}
+		}
+		acks = kept
+		mu.Unlock()
 	} else {
+		// the goroutines are done: what the cache lists for a bug is what the bug says (staged
+		// operations included) …
+		for _, id := range rc.Bugs().AllIds() {
+			ex, err1 := rc.Bugs().ResolveExcerpt(id)
+			bc, err2 := rc.Bugs().Resolve(id)
+			if err1 != nil || err2 != nil {
+				continue
+			}
+			sn := bc.Snapshot()
+			if ex.LenComments != len(sn.Comments) || ex.Title != sn.Title || len(ex.Labels) != len(sn.Labels) || ex.Status != sn.Status {
+				c.violation(-1, key("excerpt-stale-at-quiescence"), fmt.Sprintf("after all goroutines returned, the cache lists bug %s with %d comments, title %q, %d labels; the bug has %d, %q, %d (%s)",
+					id.Human(), ex.LenComments, ex.Title, len(ex.Labels), len(sn.Comments), sn.Title, len(sn.Labels), tag), map[string]any{"conf": tag})
+			}
+		}
+		// … then everything still staged is committed: those edits are acknowledged now
+		flushed := map[entity.Id]bool{}
+		for _, id := range rc.Bugs().AllIds() {
+			if bc, err := rc.Bugs().Resolve(id); err == nil {
+				if err := bc.CommitAsNeeded(); err == nil {
+					flushed[id] = true
+				} else {
+					problems = append(problems, "flush commit: "+err.Error())
+				}
+			}
+		}
+		// (kept in the workers' program order; an edit whose bug could not be flushed is dropped)
+		mu.Lock()
+		var kept []c18Ack
+		for _, a := range acks {
+			if !a.pending || flushed[a.bug] && a.op != "" {
+				kept = append(kept, a)
+			}
+		}
+		acks = kept
+		mu.Unlock()
 		if err := rc.Close(); err != nil {
 			problems = append(problems, "Close: "+err.Error())
 		}
